@@ -568,6 +568,50 @@ def rule_twoqubit(ctx: Ctx) -> None:
 MOVE_ADDS_REMOVABLE = {"EvolutionarySolver.add_measurement_cnot_and_reset": "mid-search measure-and-reset added by a move, not at initialisation"}
 
 
+# --------------------------------------------------------------------------- move.edge-roles
+
+
+def rule_edge_roles(ctx: Ctx) -> None:
+    """move.edge-roles: a move that builds a two-qubit operation from two chosen edges and splices it in with insert_at(gate, [A, B]) reads
+    the operation's control register from edge A and its target register from edge B (`dag.edges[A]["reg"]`, through local names).  The
+    node is wired into the registers of the *edges*; registers read from elsewhere give an operation whose own registers disagree with the
+    wires it sits on, which validate() and the compilers do not notice."""
+    from ..core import deref
+    repo = ctx.repo
+    n = 0
+    for rel in (EVO, HYB):
+        m = repo.module(rel)
+        for fn in m.functions():
+            ins = [c for c in calls_in(fn) if call_attr(c) == "insert_at" and len(c.args) == 2 and isinstance(c.args[1], (ast.List, ast.Tuple)) and len(c.args[1].elts) == 2]
+            for c in ins:
+                g = deref(fn, c.args[0])
+                if not (isinstance(g, ast.Call) and (call_name(g) or "").startswith("ops.") and get_kw(g, "control") is not None and get_kw(g, "target") is not None):
+                    continue
+                n += 1
+                ctx.touch(m, fn)
+                A, B = norm(c.args[1].elts[0]), norm(c.args[1].elts[1])
+
+                def edge_of(e):
+                    e = deref(fn, e)
+                    # <dag>.edges[X]["reg"]
+                    if isinstance(e, ast.Subscript) and isinstance(e.slice, ast.Constant) and e.slice.value == "reg" and isinstance(e.value, ast.Subscript) \
+                            and norm(e.value.value).endswith(".edges"):
+                        return norm(e.value.slice)
+                    return None
+                ce, te = edge_of(get_kw(g, "control")), edge_of(get_kw(g, "target"))
+                if ce is None or te is None:
+                    raise AnalysisError(f"{rel}::{qualname(fn)}: the registers of the two-qubit operation are not read from edges")
+                if (ce, te) == (A, B):
+                    ctx.ok("move.edge-roles", m, c, what=f"{qualname(fn)}: control from the first edge, target from the second")
+                else:
+                    ctx.fail("move.edge-roles", m, c,
+                             f"{qualname(fn)} splices the operation into edges [{A}, {B}] but takes its control register from edge `{ce}` and its target register from edge "
+                             f"`{te}`: the node sits on the wires of the chosen edges while the operation names other registers, so a photon can receive its correction "
+                             f"on a wire that is not its own (or before it was emitted)", func=qualname(fn), construct=f"{qualname(fn)}: operation registers not taken from its edges")
+    if n == 0:
+        raise AnalysisError("move.edge-roles: no two-qubit insertion built from edges found")
+
+
 # --------------------------------------------------------------------------- move.filters
 
 
